@@ -149,7 +149,8 @@ PROPS = {
         "level": "exploration",
         "world": "B: discovery server node (SQL seam) and two client nodes hosting three registering subjects; real refresh/update loops on the virtual clock",
         "rule": "each run: 2-4 phases of 2-3 concurrent tasks (activate, deactivate/retract, scripted continuing poll, defective registration by a scripted client: "
-                "wrong audience, validity above the maximum, JSON-LD format, no credentials, surplus credential, retraction of an unknown id) separated by up to 28 "
+                "wrong audience, validity above the maximum, JSON-LD format, no credentials, surplus / missing credential, presentation outliving a credential, and retractions "
+                "signed with the subject's own key: without retract_jti, naming an id nobody registered, naming the live entry of another subject) separated by up to 28 "
                 "virtual minutes (owners refresh at 45% of the validity); one third of the runs inject HTTP request loss, response loss and 5xx on the discovery "
                 "endpoints; then convergence of the real clients, optionally a server reset with a new seed, optionally expiry with a stopped client. "
                 "Non-trivial: at least one accepted registration or scripted poll; distinct = distinct decision hashes.",
